@@ -515,7 +515,24 @@ func (p *plugin) synchronize(ctx context.Context, pods []*PodSandbox, containers
 				return nil, err
 			}
 
+			// never ask for more objects than there are left to send
+			if podsPerMsg > len(podsToSend) {
+				podsPerMsg = len(podsToSend)
+			}
+			if ctrsPerMsg > len(ctrsToSend) {
+				ctrsPerMsg = len(ctrsToSend)
+			}
+
 			log.Debugf(ctx, "oversized message, retrying in smaller chunks")
+		}
+
+		// always make progress: never send an empty message while there is still something to send
+		if podsPerMsg == 0 && ctrsPerMsg == 0 {
+			if len(podsToSend) > 0 {
+				podsPerMsg = 1
+			} else if len(ctrsToSend) > 0 {
+				ctrsPerMsg = 1
+			}
 		}
 	}
 
